@@ -38,7 +38,7 @@ CHECKS = {
               "whose body assigns to the loop variable."),
         note=TB + "The code generator, LLVM and libc are reached by correspondence only (partial): instruction selection, "
              "optimisation passes and printf are not modelled. Programs that hit LLVM-undefined operations are not judged. "
-             "The parser model covers `falls`, `entweder`, the ten chain rungs, prefix operators and grouping (comparisons / shifts / hoch / slicing / indexing / casts: "
+             "The parser model covers `falls`, `entweder`, the ten chain rungs incl. comparisons and shifts with their closing words, prefix operators and grouping (equality / zwischen / hoch / slicing / indexing / casts: "
              "shape theorems over the regenerated ladder only); no theorem states type soundness of the evaluator. "
              "Known findings: Kommazahlen held in Variablen compare by bytes; a list holding a not-a-number value equals itself through one name.",
         technique="Lean 4 proof about a total reference evaluator and over the regenerated precedence ladder + differential correspondence of generated programs through the real compiler",
